@@ -86,6 +86,14 @@ static int tokens_ok(const jsmntok_t *t, int n, size_t budget, size_t len, int s
       if (!disjoint && !nested) return 0;
     }
   }
+  /* size counts the tokens directly inside a container: 0 for strings and primitives, and for a container
+     positive exactly if some token lies inside it (the exact count is not needed by any caller) */
+  for (int i = 0; i < n; i++) {
+    int any = 0;
+    for (int j = i + 1; j < n; j++)
+      if ((t[i].type == JSMN_OBJECT || t[i].type == JSMN_ARRAY) && t[i].start < t[j].start && t[j].end <= t[i].end) any = 1;
+    if (t[i].size < 0 || (t[i].size > 0) != any) return 0;
+  }
   return 1;
 }
 
